@@ -7,6 +7,7 @@
 (*                                  the cursor at `off` (TLC-generated strings, padded   *)
 (*                                  variants, digit/nesting stretches, seeded fuzz)      *)
 (*   deepnest k complete check parse   k nested '*1\r\n' headers (too long to list)      *)
+(*   longrun  unit k check parse ref_* one unit repeated k times (1 MiB), and 64 times    *)
 (*   conn     frames write encoded runs   frames written by the real write_frame and    *)
 (*                                  read back by read_frame under segmentations / EOFs  *)
 (*                                                                                     *)
@@ -68,6 +69,14 @@ NestVerdict(r) ==
            THEN V("drift", "nesting limit differs from the transcription")
     ELSE OK
 
+\* a long run of one repeated unit: nobody dies, and nothing depends on the length of the run
+LongRunVerdict(r) ==
+    IF Died(r.check) THEN V("C07", "Frame::check " \o r.check.kind \o "s on a long run of one repeated unit")
+    ELSE IF Died(r.parse) THEN V("C07", "Frame::parse " \o r.parse.kind \o "s on a long run of one repeated unit")
+    ELSE IF r.check.kind # r.ref_check.kind \/ r.parse.kind # r.ref_parse.kind
+           THEN V("drift", "the outcome for a long run differs from the outcome for 64 repetitions")
+    ELSE OK
+
 \* one read-back run of a conn observation
 \* large frames are recorded as references to the frame written at the same position
 Resolve(r, got) == [i \in 1..Len(got) |-> IF got[i].t = "same" THEN r.frames[got[i].i] ELSE got[i]]
@@ -101,6 +110,7 @@ ConnVerdict(r) ==
 Verdict(r) ==
     CASE r.ev = "bytes" -> BytesVerdict(r)
       [] r.ev = "deepnest" -> NestVerdict(r)
+      [] r.ev = "longrun" -> LongRunVerdict(r)
       [] r.ev = "conn" -> ConnVerdict(r)
       [] OTHER -> OK
 
